@@ -96,11 +96,12 @@ def cmpBool (a b : Bool) : Ordering :=
   | _, _ => .eq
 
 mutual
-/-- `impl Ord for Value`: numbers by value, same-type scalars by their own order, arrays element
-by element, objects by their key-sorted entries, everything else by `rank`. -/
+/-- `impl Ord for Value`: numbers by exact value (`Int` against `Float`: `cmp_int_float`),
+same-type scalars by their own order, arrays element by element, objects by their key-sorted
+entries, everything else by `rank`. -/
 def cmp : Value → Value → Ordering
-  | int a, float b => F64.ocmp (F64.ofInt a) b
-  | float a, int b => F64.ocmp a (F64.ofInt b)
+  | int a, float b => F64.cmpIntFloat a b
+  | float a, int b => (F64.cmpIntFloat b a).swap
   | float a, float b => F64.ocmp a b
   | int a, int b => compare a b
   | str a, str b => compare a b
